@@ -79,7 +79,14 @@ def filter_frame():
                     if isinstance(t, ast.Name) and t.id in params and isinstance(st.value, (ast.Call, ast.List, ast.ListComp, ast.Dict, ast.BinOp, ast.JoinedStr, ast.Constant)):
                         if not (isinstance(st.value, ast.Call) and flow.dotted(st.value.func) in ("cast",)):
                             fresh.add((t.id, st.lineno))
+        seq_first = None
+        if any(flow.dotted(d) == "sequence_filter" for d in getattr(fn, "decorator_list", [])) and fn.args.args:
+            # sequence_filter hands the filter a freshly built list (flatten(val) / [val]):
+            # mutating that list itself is not a write to render data (its elements still are)
+            seq_first = fn.args.args[0].arg
         def is_param_alias(node, lineno):
+            if isinstance(node, ast.Name) and node.id == seq_first:
+                return False
             root = node
             while isinstance(root, (ast.Attribute, ast.Subscript)):
                 root = root.value
